@@ -393,7 +393,7 @@ PROPS["C20"] = dict(
                    args={"quick": ["--stage", "other"], "thorough": ["--stage", "other"]})],
     explanation="Expressions are fed in batches of 400 on the standard input of one hwloc-calc process per (topology, option set); every single "
                 "location is run again on the command line. A tool that does not finish within 20 s is killed and reported as a hang.",
-    bounds={"quick": "every second synthetic description and every XML fixture (<= 8 PUs) for hwloc-calc, 12 topologies for the other tools; second operands from a reduced list of 24 locations; malformed lists on 3 topologies",
+    bounds={"quick": "every second synthetic description and every XML fixture (<= 8 PUs) for every tool; second operands from a reduced list of 24 locations; malformed lists on 3 topologies",
             "thorough": "all 26 topologies; richer ranges, 3-location sequences, second operands from 60 locations"},
     assumptions=COMMON_ASSUMPTIONS + ["objects without an OS index cannot be named with physical indexes: --largest -p outputs naming such objects are counted, not compared",
                                       "--largest is an error for sets that leave the topology: such expressions are exercised with the other option sets only",
